@@ -39,7 +39,8 @@ SPEC = {
         "instance with the lower / higher NAME vs a foreign node, crossed claims, every delivery schedule, bound 4 effective deliveries; the "
         "loser ends at the next address or at 254, change latched; C03_converges_two_nodes_lib_lib: the same for two one-device "
         "library instances; C03_converges_two_nodes_timed: library vs library with polls and clock advances interleaved - claim timer "
-        "expiry during the contest only changes the loser's end-of-search address); for n nodes "
+        "expiry during the contest only changes the loser's end-of-search address; C03_converges_two_nodes_timed_lib_keeps / "
+        "_timed_lib_moves: the same lift for library vs foreign node); for n nodes "
         "C03_converges_partial is the per-device progress measure; "
         "convergence is explored by the harness (all schedules of 2-3 claimants, sampled 4-6, full-range wall)",
         "dm_None; uint8_t address arithmetic; LP64",
@@ -63,7 +64,7 @@ MANIFEST = {
             "recyclable modulo 2^32 (claim contention under receive-slot pressure across the clock wrap), and a device above 251 "
             "sends nothing but claims whatever source the application preset.",
     'design_ref': 'DESIGN.md section 4, C03',
-    'note': "partial: C03_converges_partial - liveness is proved for the two-node contest only (C03_converges_two_nodes, _lib_moves, _lib_lib, _timed, "
+    'note': "partial: C03_converges_partial - liveness is proved for the two-node contest only (C03_converges_two_nodes, _lib_moves, _lib_lib, _timed, _timed_lib_keeps, _timed_lib_moves, "
             "every delivery schedule, 4 effective deliveries); for n nodes only the per-device progress measure. Trusted: Lean kernel; hand model validated by the differential runs; ISO 11783-5 spec file; ISO-TP reassembly "
             "of the commanded address and non-claim traffic are outside the model. Fixed on the tree the model describes: "
             "C03:commanded-onto-sibling (HandleCommandedAddress took an address held by a sibling device).",
